@@ -17,6 +17,9 @@ S_SQ = "IntSqrtModDom::"
 SMALL_PRIMES = [2, 3, 5, 7, 11, 13, 17, 19, 23, 29, 31, 37, 41, 43, 47, 53, 59, 61, 67, 71]
 
 
+_TD = [q for q in range(2, 3000) if all(q % d for d in range(2, int(q ** 0.5) + 1))]
+
+
 def is_prime(n):
     if n < 2:
         return False
@@ -40,27 +43,47 @@ def is_prime(n):
 
 
 def _rho(n, c):
-    x = y = 2; d = 1
+    """Pollard rho, Brent's variant with batched gcds"""
+    y, r, q, g = 2, 1, 1, 1
     f = lambda v: (v * v + c) % n
-    while d == 1:
-        x = f(x); y = f(f(y)); d = math.gcd(abs(x - y), n)
-    return d
+    while g == 1:
+        x = y
+        for _ in range(r):
+            y = f(y)
+        k = 0
+        while k < r and g == 1:
+            ys = y
+            for _ in range(min(128, r - k)):
+                y = f(y); q = q * abs(x - y) % n
+            g = math.gcd(q, n); k += 128
+        r *= 2
+    if g == n:
+        g = 1
+        while g == 1:
+            ys = f(ys); g = math.gcd(abs(x - ys), n)
+    return g
+
+
+_FC = {}
 
 
 def factor(n):
-    """{p: e} of n >= 1 (trial division, then Pollard rho)"""
-    n = abs(n); res = {}
-    q = 2
-    while q * q <= n and q < 5000:
+    """{p: e} of n >= 1 (trial division, then Pollard rho); memoised"""
+    n = abs(n)
+    if n in _FC:
+        return dict(_FC[n])
+    n0 = n; res = {}
+    for q in _TD:
+        if q * q > n:
+            break
         while n % q == 0:
             res[q] = res.get(q, 0) + 1; n //= q
-        q += 1 if q == 2 else 2
     st = [n] if n > 1 else []
     while st:
         m = st.pop()
         if m == 1:
             continue
-        if is_prime(m):
+        if m < _TD[-1] ** 2 or is_prime(m):
             res[m] = res.get(m, 0) + 1; continue
         c = 1
         while True:
@@ -69,6 +92,7 @@ def factor(n):
                 break
             c += 1
         st += [d, m // d]
+    _FC[n0] = dict(res)
     return res
 
 
@@ -292,12 +316,13 @@ def gen_cases(rng, tier, have):
     for i in range(120 if th else 30):
         F = {}
         for j in range(rng.range(1, 4)):
-            q = rng.choice([2, 3, 5, 7, 11, 13]) if rng.chance(1, 3) else rand_prime(rng, rng.range(8, 40))
+            q = rng.choice([2, 3, 5, 7, 11, 13]) if rng.chance(1, 3) else rand_prime(rng, rng.range(8, 32))
             F[q] = F.get(q, 0) + (rng.range(1, 6) if q < 20 else rng.range(1, 2))
         n = 1
         for q, e in F.items():
             n *= q ** e
         Lf = sorted(F)
+        _FC[n] = dict(F)
         C.append(mk("phi", [n], "phi", n=n))
         C.append(mk("phiL.vector", [n] + Lf, "phi", n=n, Lf=Lf))
         C.append(mk("mobius", [n], "mobius", n=n))
@@ -319,7 +344,7 @@ def gen_cases(rng, tier, have):
         C.append(mk(rng.choice(["order", "order", "is_prim_root"]), [a, n], None, a=a, n=n))
         C[-1]["kind"] = C[-1]["iop"]
     for i in range(80 if th else 24):
-        q = rand_prime(rng, rng.range(20, 48)); n = q * rng.choice([1, 1, 2, q, 3, 4])
+        q = rand_prime(rng, rng.range(20, 36)); n = q * rng.choice([1, 1, 2, q, 3, 4])
         a = rng.range(2, n - 1)
         C.append(mk("order", [a, n], "order", a=a, n=n))
         C.append(mk("is_prim_root", [a, n], "is_prim_root", a=a, n=n))
